@@ -16,7 +16,9 @@ RULE = ("suite pdu: every request class with get_response_pdu_size, EVERY quanti
         "classes x quantities around boundaries x {normal, exception} replies: the real ModbusTransactionManager "
         "runs against a scripted byte-stream transport holding the frame that the server-side framer built; "
         "observed = the sizes passed to recv.  non-trivial = the class predicts and the quantity is legal; "
-        "distinct = distinct Coq case terms")
+        "distinct = distinct Coq case terms.  suite tcp: the same request set through the real ModbusTcpClient "
+        "(select + socket.recv) over a socketpair, unit ids 5 and 200; diagnostic classes are enumerated by "
+        "introspection of the real module")
 TRUSTED = [
     "generated from source on every run (Generated/GenSizes.v): every get_response_pdu_size body, base_adu_size "
     "table, _calculate_response_length/_calculate_exception_length arithmetic, min_size table, the *2 ASCII rule, "
@@ -527,7 +529,10 @@ MANIFEST = {
              "the frame length for normal and exception replies on RTU/ASCII/binary (and normal on TLS). Refuted and "
              "delimited: Modbus Plus statistics (117/7 vs 115/5), Force Listen Only (predicts a reply that is never "
              "sent), exception replies over the TLS framing, binary frames whose data contain 0x7B/0x7D. "
-             "Correspondence: all quantities 1..2000 / 1..125 on the real classes through ServerDecoder/execute/encode, "
+             "Also: the TCP path (8-byte read, then length - 2) for normal and exception replies, and every diagnostic "
+             "request class enumerated from diag_message.py (a new class fails closed). "
+             "Correspondence: all quantities 1..2000 / 1..125 on the real classes through ServerDecoder/execute/encode, the "
+             "real ModbusTcpClient over a socketpair, "
              "and the sizes the real transaction manager asks of a scripted transport for all five framers."),
     "note": ("Trusted: Coq kernel; translator shape matching; the hand-written glue (None handling, isinstance chains "
              "as table lookups, byte-stream transport) validated by correspondence evaluated with vm_compute; the "
